@@ -415,4 +415,11 @@ Definition run_arb (s : state) (ops : list op) : state :=
 Definition init_state (g : block) : state :=
   mkState [g] (created g) (xor_all 0 (created g)).
 
+(* Visor.Init on an EMPTY database: maybeCreateGenesisBlock builds the genesis
+   block from the configuration and appends it with executeSignedBlock, i.e.
+   only if the configured genesis signature verifies over its header under the
+   configured publisher key; otherwise Init fails and nothing is stored *)
+Definition start_node (g : block) : option state :=
+  if b_sig_ok g then Some (init_state g) else None.
+
 Definition genesis_volume (g : block) : Z := sumZ (map u_coins (created g)).
